@@ -169,6 +169,21 @@ def run_C15(ctx):
             if cr.returncode != 0 or cr.stdout != by[f"simplify-{pf}-tau-star"]:
                 extra.append({"check": "C15.cli_prints_what_the_library_computes", "text": r["text"],
                               "detail": f"`anthem simplify --portfolio {pf}` on the tau* text (exit {cr.returncode}) printed {cr.stdout[:200]!r}, the library computes {by[f'simplify-{pf}-tau-star'][:200]!r}", "record": {"prog": r["text"]}})
+    # theories as INPUT of the command line: whatever `translate --with completion | gamma` and `simplify` print on success is a theory again
+    ths = V.tlc_generate(ctx, "theory", 60 if q else 600, 1)
+    ths += [{"id": f"tx{i}", "theory": t} for i, t in enumerate([
+        "forall X (q(X) -> p(X)). forall X (q(X) -> #true).", "forall X (p(X) <- q(X)). #true <- r.", "forall X (q(X) -> p(X)). r -> #true. forall X (#true <- p(X)).",
+        "forall X (q(X) -> #false). forall X (q(X) -> #true).", "forall X (q(X) and #true -> p(X)). #true.", "#true. #false -> r.", "forall X Y (t(X, Y) -> p(X)). forall X (p(X) -> #true) .",
+    ])]
+    for c in ths:
+        with open(os.path.join(work, "in.spec"), "w") as fh:
+            fh.write(c["theory"])
+        for args in (["translate", "--with", "completion"], ["translate", "--with", "gamma"], ["simplify", "--portfolio", "classic", "--strategy", "recursive"]):
+            cr = subprocess.run([V.ANTHEM] + args + [os.path.join(work, "in.spec")], stdout=subprocess.PIPE, stderr=subprocess.PIPE, text=True, timeout=60)
+            ncli += 1
+            if cr.returncode == 0:
+                nout += 1
+                cases.append({"id": f"{c['id']}/cli-{args[-1]}", "as": "theory", "text": cr.stdout, "origin": f"`anthem {' '.join(args)}` of `{c['theory'][:80]}`"})
     recs = roundtrip_records(ctx, cases)
     # the theory translate / simplify hold in memory vs. the theory their printed text parses to
     seen_i = set()
